@@ -693,6 +693,17 @@ func ttxSelfTest() error {
 
 func c06Run(c *fw.Ctx) fw.Outcome {
 	s := ttxGenStream(c.R)
+	if c.Idx%8 >= 6 {
+		// a capture that was cut in the middle of a packet: the incomplete packet carries nothing
+		cut := make([]byte, c.R.Range(1, 187))
+		for i := range cut {
+			cut[i] = byte(c.R.Intn(256))
+		}
+		cut[0] = 0x47
+		s.data = append(s.data, cut...)
+		s.feature += " cut-last-packet"
+		c.Count("streams_ending_in_an_incomplete_packet", 1)
+	}
 	key := fw.HashBytes(s.data)
 	var got *astisub.Subtitles
 	var err error
@@ -731,7 +742,7 @@ func init() {
 	fw.Register(&fw.Property{
 		ID:          "C06",
 		Level:       "exploration",
-		Rule:        "case = one transport stream generated from a ground-truth page schedule: 1..8 instances of a random page (magazine 1..8, page 00..99), each with 1..4 rows at rows 1..24 (or header only), cells over all G0 codes incl. the 13 national option positions under every C12-C14 value, colour/size/box codes, text outside the box, cells with wrong parity; serial or parallel magazine mode; distractor pages in the same and other magazines before, between and (parallel mode, other magazine) inside instances; stuffing and non-subtitle units, wrong framing code, X/26, X/27, X/28, M/29, 8/30 packets, rows of other magazines, single-bit errors in Hamming bytes, 1..15 units per PES, header and rows in the same or following PES, non-EBU PES on the teletext PID, PES on other PIDs below and above, null packets, PAT/PMT repeated, a second teletext PID in the PMT, a trailing payload unit that is neither PSI nor PES; options page given/0 and PID given/0. Oracle: the cue list computed from the schedule (start/end from the PTS of the PES carrying the instance headers, +-1 ns; rows ascending; runs decoded with the harness's frozen character tables; rows with a parity error compared on their space-free character sequence). distinct_nontrivial = distinct streams compared.",
+		Rule:        "case = one transport stream generated from a ground-truth page schedule: 1..8 instances of a random page (magazine 1..8, page 00..99), each with 1..4 rows at rows 1..24 (or header only), cells over all G0 codes incl. the 13 national option positions under every C12-C14 value, colour/size/box codes, text outside the box, cells with wrong parity; serial or parallel magazine mode; distractor pages in the same and other magazines before, between and (parallel mode, other magazine) inside instances; stuffing and non-subtitle units, wrong framing code, X/26, X/27, X/28, M/29, 8/30 packets, rows of other magazines, single-bit errors in Hamming bytes, 1..15 units per PES, header and rows in the same or following PES, non-EBU PES on the teletext PID, PES on other PIDs below and above, null packets, PAT/PMT repeated, a second teletext PID in the PMT, a trailing payload unit that is neither PSI nor PES, a capture cut in the middle of its last packet (a quarter of the streams); options page given/0 and PID given/0. Oracle: the cue list computed from the schedule (start/end from the PTS of the PES carrying the instance headers, +-1 ns; rows ascending; runs decoded with the harness's frozen character tables; rows with a parity error compared on their space-free character sequence). distinct_nontrivial = distinct streams compared.",
 		Assumptions: []string{"decimal page numbers; no row sent twice in one instance; X/28 and M/29 designate the default G0 set; rows of the selected page always hold boxed text or the instance is header-only", "a colour code repeating the colour in force is not generated", "distractor pages before the first instance do not carry the subtitle flag (auto-detection selects the first flagged page)"},
 		Cases:       func(tier string) int64 { return tierN(tier, 3000, 1500000) },
 		Setup:       func(c *fw.Ctx) error { return ttxSelfTest() },
